@@ -442,7 +442,7 @@ def replay(o):
 
 
 INFO = dict(
-    assumptions=A.S_COMMON + [A.A10], trusted_base=A.TRUSTED, min_obligations=200, level="other",
+    assumptions=A.S_COMMON + [A.A10, A.A11, A.A12], trusted_base=A.TRUSTED, min_obligations=200, level="other",
     explanation="C04: engine V proves that one_knot_insert_once returns exactly Boehm's matrix (identity rows, alpha / 1-alpha band, shift rows; index safety, no "
                 "division by zero, termination) for every knot vector, interior node and admissible multiplicity; that this matrix preserves the function is then an "
                 "identity checked per shape by engine S: refinement identity of the insertion matrix and function-preservation of Curve.knot_insert on every span of the "
